@@ -349,32 +349,45 @@ func (l *noMixConstraintImpl) EstimateIsViolated(
 	move SolutionMoveStops,
 ) (isViolated bool, stopPositionsHint StopPositionsHint) {
 	moveImpl := move.(*solutionMoveStopsImpl)
-	_, hasRemoveMixItem := l.remove[moveImpl.stopPositions[0].Stop().ModelStop()]
+	// the first stop of the move that carries an item: the stops in front of
+	// it change nothing
+	first := 0
+	for first < len(moveImpl.stopPositions) {
+		modelStop := moveImpl.stopPositions[first].Stop().ModelStop()
+		_, hasInsert := l.insert[modelStop]
+		_, hasRemove := l.remove[modelStop]
+		if hasInsert || hasRemove {
+			break
+		}
+		first++
+	}
+	if first == len(moveImpl.stopPositions) {
+		return false, constNoPositionsHint
+	}
+	_, hasRemoveMixItem := l.remove[moveImpl.stopPositions[first].Stop().ModelStop()]
 	if hasRemoveMixItem {
 		return true, constNoPositionsHint
 	}
 
-	previousStopImp := moveImpl.stopPositions[0].Previous()
+	// what is on board in front of it is what the last planned stop before
+	// it carries (the move's own stops in between carry no item)
+	previousStopImp := moveImpl.stopPositions[first].Previous()
+	for idx := first; !previousStopImp.IsPlanned() && idx > 0; {
+		idx--
+		previousStopImp = moveImpl.stopPositions[idx].Previous()
+	}
 	previousNoMixData := previousStopImp.ConstraintData(l).(*noMixSolutionStopData)
 	contentName := previousNoMixData.content.Name
 	contentQuantity := previousNoMixData.content.Quantity
 
 	deltaQuantity := 0
 
-	insertMixItem, hasInsertMixItem := l.insert[moveImpl.stopPositions[0].Stop().ModelStop()]
+	insertMixItem, hasInsertMixItem := l.insert[moveImpl.stopPositions[first].Stop().ModelStop()]
 	if hasInsertMixItem {
 		if contentName != insertMixItem.Name && previousNoMixData.content.Quantity != 0 {
 			return true, constNoPositionsHint
 		}
 		deltaQuantity += insertMixItem.Quantity
-	}
-
-	if !hasRemoveMixItem && !hasInsertMixItem {
-		// If the stop is not associated with any mix item, then the constraint
-		// cannot be violated (as it is not mixing any new item between existing
-		// ones). Note that the content name of all stops of a move is the same,
-		// so it is enough to check the first stop.
-		return false, constNoPositionsHint
 	}
 
 	tour := previousNoMixData.tour
@@ -384,7 +397,7 @@ func (l *noMixConstraintImpl) EstimateIsViolated(
 		tour++
 	}
 
-	for idx := 1; idx < len(moveImpl.stopPositions); idx++ {
+	for idx := first + 1; idx < len(moveImpl.stopPositions); idx++ {
 		previousStopImp = moveImpl.stopPositions[idx].Previous()
 		if previousStopImp.IsPlanned() {
 			previousNoMixData = previousStopImp.ConstraintData(l).(*noMixSolutionStopData)
